@@ -247,14 +247,21 @@ func runExplore(c exploreCase) (taken []int, trace []string, err error) {
 	defer w.Release()
 	w.Coll.NoWait = c.NoWaitColl
 	s := newGateSched()
-	w.Agent.Before = func(op string, _ [12]byte) { s.gate("agent." + op) }
+	var delivering atomic.Bool
+	var registerB sync.Once
+	w.Agent.Before = func(op string, _ [12]byte) {
+		if op == "process" && delivering.Load() {
+			// the reader goroutine becomes role B when it wakes up with the explored datagram
+			registerB.Do(func() { s.register("B") })
+		}
+		s.gate("agent." + op)
+	}
 	w.Agent.After = func(op string, _ [12]byte, _ error) { s.gate("agent." + op + ".ret") }
 	w.Conn.OnWrite = func([]byte) { s.gate("conn.write") }
 	w.Conn.OnClose = func() { s.gate("conn.close") }
 	w.Clock.OnNow = func() { s.gate("clock.now") }
 	w.Coll.OnClose = func() { s.gate("collector.close") }
 	var readerDone atomic.Bool
-	var delivering atomic.Bool
 	w.Conn.OnRead = func() {
 		// the reader goroutine is a controlled role only while it processes the explored datagram
 		if delivering.Load() && !readerDone.Load() {
@@ -375,13 +382,6 @@ func runExplore(c exploreCase) (taken []int, trace []string, err error) {
 		if c.B == "deliver" {
 			// the reader goroutine becomes role B when it wakes up with the datagram
 			delivering.Store(true)
-			var once sync.Once
-			w.Agent.Before = func(opn string, _ [12]byte) {
-				if opn == "process" {
-					once.Do(func() { s.register("B") })
-				}
-				s.gate("agent." + opn)
-			}
 			w.Conn.Enqueue(response(0, 1, 0))
 
 			return
